@@ -76,6 +76,11 @@ CHECKS = {
           "Structurally valid search requests (query trees over every node type, filters, sorts, cursors, execution strategies, fuzzy, highlight, collapse, aggregations incl. pipeline/date/significant/composite kinds, suggest, rescore, explain/profile) against three read-only in-memory indexes are mutated by 0-4 type-aware edits (numbers to extremes, strings to hostile patterns/scripts/field names/units, arrays emptied or multiplied, objects losing/swapping members or nested into themselves), plus arbitrary cursor strings and edited copies of real cursors. Whenever the JSON deserializes as SearchRequest, search must return Ok or Err: panics are caught and keyed by call site, a process abort (allocation failure) or a hang (120 s) of the supervised child is traced back to the in-flight case and reported.",
           "Release profile. Trusted: the supervisor (engine.rs supervise). The child's address space is limited to 24 GiB so that runaway allocations abort early.",
           "DESIGN.md §5 C16"),
+  "C17": ("fault_enumeration",
+          "fault-injection property testing: generated and (thorough) exhaustively enumerated single-file corruptions of generated indexes, judged against the uncorrupted baseline and a WAL prefix model, in a supervised child process",
+          "Small filesystem indexes (6-30 documents, 1-3 segments, tombstones, 0-4 queued operations in wal.log) are corrupted one file at a time: single-byte xor, truncation, 4-byte extreme stamps (60 sampled corruptions per index in quick; the thorough tier additionally enumerates EVERY byte x 4 masks and EVERY truncation length of EVERY file for a quarter of its, smaller, indexes). After each corruption Index::open -> reader -> a battery of five searches must fail with an error or equal the uncorrupted baseline exactly; for wal.log a new writer + commit must yield the committed contents plus an in-order prefix of the queued operations; a panic is caught and keyed by call site, an abort or hang of the supervised child is traced to the corruption in flight. One listed finding (MANIFEST.json has no integrity protection: silent difference) is matched by (file kind, outcome) and counted.",
+          "Trusted: the baseline of the uncorrupted index; the store model for WAL prefixes. Failures are saved as self-contained replays (the exact index bytes are attached, since index files contain random ids and timestamps).",
+          "DESIGN.md §5 C17"),
   "C21": ("exploration",
           "property-based testing with a validity predicate over every returned fragment/snippet",
           "Stored texts of 1-60 words over ASCII/Latin-1/CJK/Cyrillic/Greek/Hangul/Hebrew words joined by separators with multi-byte punctuation and emoji, indexed under 3 analyzers; queries built from the text's own words (term, query_string, phrase, bool); highlight options with tags disjoint from the text, number_of_fragments 0..4 and fragment_size = 2 x longest matched surface form + slack (the precondition holds by construction); also the legacy highlight_field snippet. Every fragment must be non-empty, contain a tagged match, be a substring of the stored text without tags, have at most fragment_size characters, and at most number_of_fragments fragments are returned.",
